@@ -1053,6 +1053,12 @@ class CrashBackFamily(ReorgFamily):
         k['reorg_limit'] = rng.choice([3, 5, 10, 50])
         plan.append(dict(op='sync', keep=True))
         for _ in range(rng.randint(1, 2)):
+            if rng.random() < 0.35:
+                # a clean restart first: the block files of the recent blocks are gone, so the blocks to undo have
+                # to be downloaded again - slowly - while the first of them are already being undone
+                plan.append(dict(op='restart'))
+                plan.append(dict(op='sync'))
+                k['daemon_latency'] = rng.choice([(0.01, 1.0), (0.0005, 6.0), (0.5, 9.0)])
             if rng.random() < 0.5:
                 plan.append(dict(op='fork', depth=rng.choice([1, 2, 3, 4]), extra=1,
                                  ntx=ntx_list(rng, 4), remine=rng.choice([0.0, 0.5, 1.0]),
